@@ -73,11 +73,28 @@ def f_dup_opid(rng, roots):
 
 
 def f_similar_paths(rng, roots):
-    a = N("GET /sim/{x}", [N("200 any")])
-    b = N(rng.choice(["GET", "POST"]) + " /sim/{y}/z", [N("200 any")])
+    # the two paths disagree on the NAME of a parameter at the same position; the parameter may
+    # be the last one of both paths, of one of them, or of neither
+    pa, pb = rng.choice([("/sim/{x}", "/sim/{y}/z"), ("/sim/{x}", "/sim/{y}"), ("/sim/{x}", "/sim/{y}/extra/{deep}"),
+                         ("/sim/{x}/friends/{f}", "/sim/{y}"), ("/{lang}/docs/{page}", "/{zz}/extra/{deep}"),
+                         ("/sim/{x}/a/{k}", "/sim/{x}/a/{q}/b"), ("/sim/{x}/tail", "/sim/{y}/other/{d}")])
+    a = N("GET " + pa, [N("200 any")]) if rng.random() < 0.6 else N("URL " + pa, [N("GET", [N("200 any")])])
+    b = N(rng.choice(["GET", "POST"]) + " " + pb, [N("200 any")])
     roots.append(a)
     roots.append(b)
     return b, "the ambiguous paths are not allowed"
+
+
+def f_dup_rpc_method(rng, roots):
+    us = [n for n in roots if kw(n) == "URL" and any(kw(c) == "Protocol" for c in n.children) and any(kw(c) == "Method" for c in n.children)]
+    u = pick(rng, us)
+    if not u:
+        u = N("URL /rpcdup", [N("Protocol json-rpc-2.0"), N("Method same", [N('Params\n{"p": 1}')])])
+        roots.append(u)
+    m = pick(rng, [c for c in u.children if kw(c) == "Method"])
+    dup = N(m.text.split("//")[0].rstrip(), [N('Result\n{"r": 2}')] if rng.random() < 0.5 else [])
+    u.children.append(dup)
+    return dup, "this method has already been defined in the resource"
 
 
 def f_param_twice(rng, roots):
@@ -150,7 +167,14 @@ def f_missing_body(rng, roots):
         if not m:
             return None
         n = N(rng.choice(["201", "418", "599"]), [N('Headers\n{"only": "headers"}')])
-        m[0].children.append(n)
+        if rng.random() < 0.5:
+            m[0].children.append(n)
+        else:
+            # not the last response of the method
+            pos = min([i for i, c in enumerate(m[0].children) if kw(c)[:1].isdigit()] or [len(m[0].children)])
+            m[0].children.insert(pos, n)
+            if not any(kw(c)[:1].isdigit() for c in m[0].children[pos + 1:]):
+                m[0].children.append(N("404 any"))
         return n, "undefined response body for resource"
     m = pick(rng, [x for x in methods(roots) if kw(x[0]) != "GET" and not any(kw(c) == "Request" for c in x[0].children)])
     if not m:
@@ -189,6 +213,7 @@ def f_jsight_not_first(rng, roots):
 
 FAULTS = {
     "dup-interaction": f_dup_interaction,
+    "dup-rpc-method": f_dup_rpc_method,
     "dup-type": f_dup_named("TYPE", 'TYPE %s\n{"dup": 1}'),
     "dup-enum": f_dup_named("ENUM", "ENUM %s\n[7]"),
     "dup-server": f_dup_named("SERVER", "SERVER %s"),
@@ -212,6 +237,26 @@ FAULTS = {
     "jsight-repeated": f_jsight_repeated,
     "jsight-not-first": f_jsight_not_first,
 }
+
+
+def fault_docs(rng, per):
+    """documents with one injected fault of every class (used by other checks too: if a change
+    makes one of them ACCEPTED, the accepted catalog must still satisfy their invariants)"""
+    out = []
+    lay0 = layout.Layout(random.Random(0))
+    for cls, inj in FAULTS.items():
+        made = tries = 0
+        while made < per and tries < per * 6:
+            tries += 1
+            roots = treecorr.gen_structured(rng, with_macros=False)
+            if inj(rng, roots) is None:
+                continue
+            try:
+                out.append((cls, directive_lines(roots, lay0)[0]))
+            except Exception:
+                continue
+            made += 1
+    return out
 
 
 def directive_lines(roots, lay):
@@ -280,7 +325,7 @@ def run(tier, out, model_ok, proof):
     out.coverage.update({
         "evaluations": len(cases),
         "distinct_nontrivial": sum(hit.values()),
-        "rule": "%d fault classes x %d random valid documents x a random injection site (and two layouts): duplicate interaction/type/enum/server/tag/macro/OperationId, similar and repeated path parameters, second Title/Version/Description/Query/Headers/Request body, undefined tag/macro, missing parameter/body, forbidden annotation, JSIGHT missing/repeated/not first; the expected message class and the line of the offending directive are computed by the injector; every case is also compared (message, file, index, line, column) with the extracted Coq catalog model; non-trivial = rejected at the fault with the class message" % (len(FAULTS), per),
+        "rule": "%d fault classes x %d random valid documents x a random injection site (and two layouts): duplicate interaction/JSON-RPC method/type/enum/server/tag/macro/OperationId, similar and repeated path parameters, second Title/Version/Description/Query/Headers/Request body, undefined tag/macro, missing parameter/body, forbidden annotation, JSIGHT missing/repeated/not first; the expected message class and the line of the offending directive are computed by the injector; every case is also compared (message, file, index, line, column) with the extracted Coq catalog model; non-trivial = rejected at the fault with the class message" % (len(FAULTS), per),
         "samples": [{"fault": metas[c["id"]][0], "doc": bytes.fromhex(c["files"]["root.jst"]).decode("latin1")[:200]} for c in cases[:2]],
         "rejected_at_fault_per_class": hit,
         "traces_validated_against_impl": (len(cases) - len(mism) - skipped) if model_ok else 0,
